@@ -241,7 +241,8 @@ type atom struct {
 	kind  string
 	text  string
 	effs  []eff
-	needs string // "" | loop | breakable | loopN (N-th enclosing loop from outside, by label)
+	needs string // "" | loop | breakable | loopN (N-th enclosing loop from outside, by label) | nested (not in the function's top block)
+	decl  string // the atom declares this name in its block, shadowing the frame's variable (at most once per block)
 	ends  bool   // nothing after it in the same list is reachable (return, panic, break, continue)
 }
 
@@ -319,6 +320,13 @@ func (fr *frame) lists(n, depth int, ctx gctx, cb func([]*node)) {
 				return // dead code after a terminating statement adds nothing
 			}
 			fr.lists(n-k, depth, ctx, func(rest []*node) {
+				if s.a != nil && s.a.decl != "" {
+					for _, r := range rest {
+						if r.a != nil && r.a.decl == s.a.decl {
+							return // the same name cannot be declared twice in one block
+						}
+					}
+				}
 				cb(append([]*node{s}, rest...))
 			})
 		})
@@ -337,6 +345,10 @@ func (fr *frame) stmts(n, depth int, ctx gctx, cb func(*node)) {
 				}
 			case "breakable":
 				if ctx.breakable {
+					cb(&node{a: a})
+				}
+			case "nested":
+				if ctx.depth > 0 {
 					cb(&node{a: a})
 				}
 			case "loopN":
@@ -673,6 +685,10 @@ func frameI(thorough bool) *frame {
 		as("call", "x = hI(x, b)", eff{"x", B("join", B("-", x, b), B("+", B("-", b, x), K(1)))}),
 		as("multi-call", "x, y = twoI(y, a)", eff{"x", B("join", y, B("+", a, K(1)))}, eff{"y", B("join", y, U("neg", a))}),
 		{kind: "panic", text: `panic("p")`, ends: true},
+		// block-scoped declarations shadowing the frame's variables: siblings, later
+		// clauses and everything after the statement must still mean the outer ones
+		{kind: "shadow-y", text: "y := a + 40\n\tx += y", needs: "nested", decl: "y", effs: []eff{{"y", B("+", a, K(40))}, {"x", B("+", x, y)}}},
+		{kind: "shadow-x", text: "var x int = b + 60\n\ty += x", needs: "nested", decl: "x", effs: []eff{{"x", B("+", b, K(60))}, {"y", B("+", y, x)}}},
 	}
 	if thorough {
 		fr.atoms = append(fr.atoms,
